@@ -101,6 +101,15 @@ impl Heap {
         s
     }
 
+    /// Number of cells allocated so far (cells are never removed).
+    pub fn len(&self) -> usize {
+        self.values.len()
+    }
+
+    pub fn is_empty(&self) -> bool {
+        self.values.is_empty()
+    }
+
     pub fn insert(&mut self, value: HeapValue) -> usize {
         self.values.push(value);
 
